@@ -1,13 +1,27 @@
 #!/bin/sh
 # Builds the Coq development (full .vo build), extracts the executable model and compiles
 # the OCaml driver.  Usage: build_model.sh [make-target]
-set -e
+# Exit 0: everything built.  Exit 3: the executable model (World.vo and what it imports) built and was extracted,
+# but some proof file did not compile (listed in .cache/coq_failed.txt; the properties whose theorems depend on
+# it are reported by their own audit, the others are not affected).  Exit 2: the model itself does not build.
 cd /verif/coq
 [ -f Makefile ] || coq_makefile -f _CoqProject -o Makefile >/dev/null
-timeout 3000 make -j16 "$@" > /verif/.cache/coq_build.log 2>&1 || { grep -B2 -A12 "^Error\|Error:" /verif/.cache/coq_build.log | head -60; exit 2; }
+rc=0
+timeout 3000 make -k -j16 "$@" > /verif/.cache/coq_build.log 2>&1 || rc=3
+if [ $rc -ne 0 ]; then
+  grep -B2 -A12 "^Error\|Error:" /verif/.cache/coq_build.log | head -60
+  grep -o "Makefile:[0-9]*: [A-Za-z0-9_/]*\.vo" /verif/.cache/coq_build.log | sed 's/.*: //' | sort -u > /verif/.cache/coq_failed.txt
+  # a .vo that make could not bring up to date (the failed files and everything that depends on them) must not
+  # be loaded in its stale form by a later coqc
+  for v in $(grep '\.v$' _CoqProject); do make -q "${v}o" > /dev/null 2>&1 || rm -f "${v}o"; done
+  timeout 2000 make World.vo > /dev/null 2>&1 || exit 2
+else
+  : > /verif/.cache/coq_failed.txt
+fi
 cd /verif/ocaml
 if [ ! -f driver ] || [ ../coq/World.vo -nt driver ] || [ driver.ml -nt driver ] || [ ../coq/Extract.v -nt driver ]; then
-  coqc -Q ../coq EV ../coq/Extract.v > /dev/null
+  coqc -Q ../coq EV ../coq/Extract.v > /dev/null || exit 2
   rm -f ../coq/Extract.vo ../coq/Extract.glob ../coq/.Extract.aux ../coq/Extract.vok ../coq/Extract.vos
-  ocamlfind ocamlopt -O3 -package str -w -a model.mli model.ml driver.ml -o driver 2>/dev/null || ocamlfind ocamlopt -package str -w -a model.mli model.ml driver.ml -o driver
+  ocamlfind ocamlopt -O3 -package str -w -a model.mli model.ml driver.ml -o driver 2>/dev/null || ocamlfind ocamlopt -package str -w -a model.mli model.ml driver.ml -o driver || exit 2
 fi
+exit $rc
